@@ -6,7 +6,7 @@
 namespace vf {
 
 struct C08Ctx {
-  uint64_t edges = 0, faces = 0, closed_checked = 0, faces_valence[9] = {0, 0, 0, 0, 0, 0, 0, 0, 0}, nextprev_skipped = 0, selfloops = 0;
+  uint64_t edges = 0, faces = 0, closed_checked = 0, faces_valence[9] = {0, 0, 0, 0, 0, 0, 0, 0, 0}, nextprev_skipped = 0, selfloops = 0, backward_walks = 0;
 };
 
 // checked_face[f] (by handle): face built from a vertex list or accepted with topology check, unmodified since
@@ -57,6 +57,21 @@ template <class M> std::string c08_sweep(const M &m, const std::vector<char> &ch
       if (r != e1) { o << "halfface_halfedges of the two sides of face " << fh.idx() << " are not mirrored: " << vec_str(e0) << " vs " << vec_str(e1); return o.str(); } }
     { std::vector<int> r(d0.rbegin(), d0.rend());
       if (r != d1) { o << "halfface_edges of the two sides of face " << fh.idx() << " are not reversed"; return o.str(); } }
+    // the same cycle walked backwards: step forward one lap (max_laps = 2), then n times back with operator--
+    if (n > 0) {
+      auto back = [&](auto it) {
+        std::vector<int> r;
+        for (size_t i = 0; i < n && it.valid(); ++i) ++it;
+        for (size_t i = 0; i < n; ++i) { --it; if (!it.valid()) { r.push_back(-99); break; } r.push_back((*it).idx()); }
+        return r;
+      };
+      auto rev = [](std::vector<int> v) { std::reverse(v.begin(), v.end()); return v; };
+      ++cx.backward_walks;
+      if (back(m.hfhe_iter(h0, 2)) != rev(e0) || back(m.hfhe_iter(h1, 2)) != rev(e1)) { o << "halfface_halfedges circulator of face " << fh.idx() << " walked backwards is not the reverse of the forward walk " << vec_str(e0) << ": " << vec_str(back(m.hfhe_iter(h0, 2))) << " / " << vec_str(back(m.hfhe_iter(h1, 2))); return o.str(); }
+      if (back(m.hfv_iter(h0, 2)) != rev(v0) || back(m.hfv_iter(h1, 2)) != rev(v1)) { o << "halfface_vertices circulator of face " << fh.idx() << " walked backwards is not the reverse of the forward walk"; return o.str(); }
+      if (back(m.hfe_iter(h0, 2)) != rev(d0) || back(m.hfe_iter(h1, 2)) != rev(d1)) { o << "halfface_edges circulator of face " << fh.idx() << " walked backwards is not the reverse of the forward walk"; return o.str(); }
+      if (back(m.fhe_iter(fh, 2)) != rev(e0) || back(m.fv_iter(fh, 2)) != rev(v0) || back(m.fe_iter(fh, 2)) != rev(d0)) { o << "face_* circulators of face " << fh.idx() << " walked backwards are not the reverse of the forward walk"; return o.str(); }
+    }
     bool checked = (size_t)fh.idx() < checked_face.size() && checked_face[(size_t)fh.idx()];
     if (checked) {
       ++cx.closed_checked;
